@@ -571,7 +571,9 @@ package badger
 //@   props C01 C21 C12
 //@   light
 //@   assert[active-first] before call IncrRef#1 : arg0 == db.mt && len(tables) == 1 && tables[0] == db.mt && held(db.lock)
-//@   assert[immutables-newest-first] before call IncrRef#2 : arg0 == db.imm[len(db.imm) - 1 - i] && len(tables) >= 1 && tables[len(tables)-1] == arg0
+//@   loop 1 invariant[count] rangeindex < len(db.imm) && len(tables) == (db.opt.ReadOnly ? 0 : 1) + rangeindex + 1
+//@   loop 1 invariant[active-stays-first] !db.opt.ReadOnly ==> len(tables) >= 1 && tables[0] == db.mt
+//@   assert[immutables-newest-first] before call IncrRef#2 : len(tables) >= 1 && arg0 == tables[len(tables)-1] && arg0 == db.imm[len(db.imm) - 2 - rangeindex]
 
 // Picking level-0 tables for a compaction to the base level: oldest first, and only a prefix of
 // the list: picking stops at the first table that does not overlap the range picked so far (a
